@@ -278,3 +278,21 @@ Proof.
   rewrite py_index_nonneg by (apply Z.mod_pos_bound; lia).
   apply nth_In. pose proof (Z.mod_pos_bound pick (zlen (a :: av)) Hn). unfold zlen in *. lia.
 Qed.
+
+(* with the partition list sorted by id (0..n-1), as the Java client has it, the chosen partition
+   ID is the Java value itself *)
+Theorem partition_id_sorted key n avail pick :
+  wfb key -> zlen key < 2147483648 -> (0 < n)%nat ->
+  Partitioner.py (Some key) (map Z.of_nat (seq 0 n)) avail pick =
+  Ok (java_partition (map to_signed_byte key) (Z.of_nat n)).
+Proof.
+  intros Hwf Hlt Hn.
+  assert (Hne : map Z.of_nat (seq 0 n) <> []) by (destruct n; [lia|discriminate]).
+  rewrite partition_keyed by assumption. f_equal.
+  assert (Hz : zlen (map Z.of_nat (seq 0 n)) = Z.of_nat n) by (unfold zlen; rewrite map_length, seq_length; reflexivity).
+  rewrite Hz.
+  set (j := java_partition _ _).
+  assert (Hj : 0 <= j < Z.of_nat n) by (subst j; unfold java_partition; apply Z.mod_pos_bound; lia).
+  rewrite (nth_indep _ 0 (Z.of_nat 0)) by (rewrite map_length, seq_length; lia).
+  rewrite map_nth. rewrite seq_nth by lia. lia.
+Qed.
